@@ -9,6 +9,7 @@ import (
 	"sync"
 	"sync/atomic"
 
+	"verif/harness/evid"
 	"verif/harness/refsem"
 )
 
@@ -47,6 +48,7 @@ func main() {
 		fmt.Fprintln(os.Stderr, "tier must be quick or thorough")
 		os.Exit(2)
 	}
+	evid.Replaying = replay != ""
 	code := f(tier, replay)
 	cleanupPublicSelf()
 	os.Exit(code)
